@@ -35,8 +35,9 @@ EXTENDS PdesyPert
 \* ---- named deviations of the pinned code from the intended design -------
 \* (DESIGN.md section 7; a repair in pDESy is a one-line change here)
 \* D1/D2: a start-to-start / start-to-finish predecessor counts as "started"
-SSStarted(s) == s = "WORKING"     \* pinned code: predecessor must *still* be WORKING
-SFStarted(s) == s = "WORKING"
+\* (pinned code: predecessor had to be *still* WORKING; repaired by fix commits 7506496, 2646482)
+SSStarted(s) == s \in {"WORKING", "FINISHED"}
+SFStarted(s) == s \in {"WORKING", "FINISHED"}
 
 Rank4(s) == CASE s = "NONE" -> 0 [] s = "READY" -> 1 [] s = "WORKING" -> 2 [] s = "FINISHED" -> 3
 
@@ -118,13 +119,12 @@ FinPass(cfg, st, order) ==
   FoldLeft(LAMBDA s, t: IF s.ts[t] = "WORKING" /\ FinishGate(cfg, s.ts, t)
                         THEN FinishTask(cfg, s, t) ELSE s,
            st, order)
-\* the code: passes over the set until nothing changes any more (fix of D3)
-RECURSIVE FinFix(_, _, _)
-FinFix(cfg, st, order) ==
-  LET s2 == FinPass(cfg, st, order)
-  IN IF s2.ts = st.ts THEN s2 ELSE FinFix(cfg, s2, order)
-FinWith(cfg, st, order) == FinPass(cfg, st, order)   \* pinned code: one pass (D3)
-FinF(cfg, st) == FinWith(cfg, st, ByRank(cfg, ZeroSet(cfg, st)))
+\* the code re-runs the check (recomputing the zero-work set) while a pass finishes a task;
+\* the pinned code made a single pass (D3), repaired by a fix commit
+RECURSIVE FinF(_, _)
+FinF(cfg, st) ==
+  LET s2 == FinPass(cfg, st, ByRank(cfg, ZeroSet(cfg, st)))
+  IN IF s2.ts = st.ts THEN s2 ELSE FinF(cfg, s2)
 
 \* ---------------------------------------------------------------------------
 \* placement helpers (BaseWorkplace.set/remove_placed_component, recursive)
